@@ -21,7 +21,18 @@ cumulant_basis_change_of_mix cumulant_basis_change_of_mix_opt cumulant_basis_cha
 cumulant_single_qubit_basis_change etm_basis_change etm_sum_basis_change
 process_fidelity_basis_independent cumulant_trace_basis_independent
 infidelity_eq_neg_trace_model_cumulant etm_basis_change_from_scratch'''.split()
-LEAN_MODULES = ['FFVerif.Props.C12', 'FFVerif.Props.C08Inv', 'FFVerif.Props.C12Etm', 'FFVerif.Props.C10Shifts']
+LEAN_MODULES = ['FFVerif.Props.C12', 'FFVerif.Props.C08Inv', 'FFVerif.Props.C12Etm', 'FFVerif.Props.C10Shifts',
+                'FFVerif.Props.C12Frame']
+# module C12Frame: energy zero and reference frame beyond first order — second-order filter function, frequency shifts,
+# trace tensor, cumulant function, error transfer matrix (end to end from pulse data, first and second order)
+THEOREMS += [
+    'FFVerif.C12.secondOrderFF_energy_offset', 'FFVerif.C12.secondOrderFF_frame_covariance',
+    'FFVerif.C12.frequency_shifts_energy_offset', 'FFVerif.C12.frequency_shifts_frame_independent',
+    'FFVerif.C12.cm_frame_covariance_array', 'FFVerif.C12.cm_energy_offset_array',
+    'FFVerif.C12.secondOrderFF_frame_covariance_array', 'FFVerif.C12.secondOrderFF_energy_offset_array',
+    'FFVerif.C12.fourElementTraces_frame_invariant', 'FFVerif.C12.commutator_traces_frame_invariant',
+    'FFVerif.C12.cumulant_frame_invariant', 'FFVerif.C12.cumulant_single_qubit_frame',
+    'FFVerif.C12.etm_frame_invariant', 'FFVerif.C12.etm_energy_offset']
 # module C10Shifts: the frequency shifts (second order) under a change of basis, end to end from the pulse
 THEOREMS += [
     'FFVerif.C10.secondOrderFF_loop_basis_change', 'FFVerif.C10.secondOrderFF_basis_change_of_mix',
